@@ -113,6 +113,29 @@ def split_output(out):
     return got, "\n".join(rest)
 
 
+IMPORT_FAILED = re.compile(r"^;;(?:READ-)?EXC 0 .*$", re.M)
+
+
+def evalbatch_retry(variant, files, **kw):
+    """common.evalbatch, retried while the variant is being rebuilt under our feet (another check noticed a change
+    in /repo): the first top-level form of every driver is its (import ...), so ';;EXC 0' means the libraries were
+    not loadable at that moment; a missing executable shows up as OSError."""
+    last = None
+    for attempt in range(8):
+        try:
+            res = common.evalbatch(variant, files, **kw)
+        except (OSError, RuntimeError) as e:
+            last = "evalbatch could not be started: %s" % e
+            time.sleep(15)
+            continue
+        m = IMPORT_FAILED.search(res.out)
+        if not m:
+            return res
+        last = m.group(0)
+        time.sleep(15)
+    raise common.HarnessError("libraries could not be imported after 8 attempts: %s" % last)
+
+
 def run_cases(variant, make_text, n, tag="c19", timeout=900, max_stops=12):
     """make_text(start, end, flush) -> program printing one '>' line per case.  Returns (lines, events);
     lines[i] is None for a case that produced no line; events = [(kind, index, rc, tail)]."""
@@ -123,7 +146,7 @@ def run_cases(variant, make_text, n, tag="c19", timeout=900, max_stops=12):
         d = common.scratch_dir(tag)
         path = os.path.join(d, "job.scm")
         common.write_file(path, make_text(start, n, flush))
-        res = common.evalbatch(variant, [path], timeout=timeout if not flush else max(180, timeout // 3), cwd=d)
+        res = evalbatch_retry(variant, [path], timeout=timeout if not flush else max(180, timeout // 3), cwd=d)
         shutil.rmtree(d, ignore_errors=True)
         got, tail = split_output(res.out)
         hdr = re.search(r"ERROR: AddressSanitizer.*", res.out)
@@ -198,6 +221,18 @@ class JobResult:
             if kind == "gave-up":
                 self.not_run += rc
                 continue
+            if kind == "timeout":
+                # rule 4: a batch that ran into the watchdog proves nothing by itself (the machine may be overloaded or
+                # the driver slow); the case must fail to terminate when run alone in a fresh process
+                d = common.scratch_dir("c19to")
+                path = os.path.join(d, "alone.scm")
+                common.write_file(path, replay_of(idx))
+                alone = evalbatch_retry(self.variant, [path], timeout=240, cwd=d)
+                shutil.rmtree(d, ignore_errors=True)
+                if not alone.timed_out:
+                    self.excluded["batch hit its time limit but the case terminates when run alone (not counted as run)"] += 1
+                    self.not_run += 1
+                    continue
             m = re.search(r"ERROR: AddressSanitizer: (\S+).*", tail)
             frames = re.findall(r"#\d+ \S+ in (\S+) (\S+)", tail)[:4]
             self.violation(section + "-" + ("hang" if kind == "timeout" else "crash"),
@@ -1378,10 +1413,21 @@ def job_acc_server(variant, which):
     pre = os.path.join(d, "prelude.scm")
     common.write_file(pre, "(import (scheme base) (scheme write) (scheme inexact) (scheme complex) (scheme bytevector))\n" + PRE + ACC_PRE
                       + "(define CASES (vector\n" + "\n".join("(lambda () %s)" % c.expr for c in cs) + "))\n")
-    srv = common.Server(variant, preludes=[pre])
-    if ";;EXC" in srv.startup_output or "READ-EXC" in srv.startup_output:
-        srv.close()
-        raise common.HarnessError("accessor prelude failed: " + srv.startup_output[-1500:])
+    srv = None
+    for attempt in range(8):
+        try:
+            srv = common.Server(variant, preludes=[pre])
+        except (OSError, RuntimeError, common.HarnessError) as e:
+            srv, why = None, str(e)
+        else:
+            if ";;EXC" not in srv.startup_output and "READ-EXC" not in srv.startup_output:
+                break
+            why = srv.startup_output[-1500:]
+            srv.close()
+            srv = None
+        time.sleep(15)          # the variant is probably being rebuilt
+    if srv is None:
+        raise common.HarnessError("accessor prelude failed: " + why)
     got = {}
     crashes = {}
 
@@ -1896,11 +1942,13 @@ def jobs_for(tier):
     if not q:
         cells = ["", "a", ",", '"', "\n", "é"]
         ntab = len(csv_tables(cells, 3))
-        for lo, hi in chunks(ntab, 8000):
+        # chunks of 2000 tables: the interpreter takes super-linear time to load a larger quoted literal
+        for lo, hi in chunks(ntab, 2000):
             if hi > 1806:          # the first 1806 tables are the <= 2-row ones above
                 J.append(("csv", "job_csv", ("asan", "default", cells, 3, max(lo, 1806), hi)))
         cells9 = cells + ["\r", " ", 'a"b,c']
-        J.append(("csv", "job_csv", ("asan", "default", cells9, 2, 0, 10 ** 9)))
+        for lo, hi in chunks(len(csv_tables(cells9, 2)), 2000):
+            J.append(("csv", "job_csv", ("asan", "default", cells9, 2, lo, hi)))
     # ---- accessors
     J.append(("acc", "job_acc_server", ("asan", "r6rs")))
     J.append(("acc", "job_acc_batch", ("asan", "srfi160")))
@@ -1949,7 +1997,7 @@ def confirm_alone(v):
     d = common.scratch_dir("c19cf")
     path = os.path.join(d, "replay.scm")
     common.write_file(path, replay)
-    res = common.evalbatch(desc.get("variant", "asan"), [path], timeout=300, cwd=d)
+    res = evalbatch_retry(desc.get("variant", "asan"), [path], timeout=300, cwd=d)
     shutil.rmtree(d, ignore_errors=True)
     return first_line(res.out) == desc["got_line"]
 
@@ -1988,7 +2036,9 @@ def main(tier, replay=None):
     done = 0
     not_run = 0
     harness_errors = []
+    worker_pids = []
     with Pool(common.NCPU) as pool:
+        worker_pids = [w.pid for w in getattr(pool, "_pool", [])]
         for r in pool.imap_unordered(run_job, jobs, chunksize=1):
             done += 1
             sec = sections.setdefault(r.section, {"jobs": 0, "evaluations": 0, "nontrivial": 0})
@@ -2052,6 +2102,11 @@ def main(tier, replay=None):
     chk.cov["cases_not_run_after_repeated_crashes"] = not_run
     chk.cov["variants"] = variants
     common.cleanup_scratch()
+    # scratch directories of workers that were terminated at the deadline
+    if os.path.isdir(common.SCRATCH_ROOT):
+        for f in os.listdir(common.SCRATCH_ROOT):
+            if f.startswith("c19") and any("-%d-" % pid in f for pid in worker_pids):
+                shutil.rmtree(os.path.join(common.SCRATCH_ROOT, f), ignore_errors=True)
     return chk.finish()
 
 
